@@ -1,4 +1,5 @@
 """C16 a Getter returns one record per Sid its Finder finds, in the same order."""
+import json
 from harness.runner import PropBase, Case
 from harness import gen, core
 from props import datalayer as dl
@@ -57,6 +58,17 @@ class C16(PropBase):
                 out.append(Case('find_all', [q], 'find_all', m))
                 s1 = rng.choice(allsids)
                 out.append(Case('get_data_all', [s1, attrs, enc], 'get_data', m))
+            # several found Sids that encode alike: the last value kept, earlier ones starred, with the non-injective encoder
+            for _ in range(4):
+                base = rng.choice(allsids).split('/')
+                if len(base) < 5:
+                    continue
+                q = '/'.join(base[:2] + ['*'] * (len(base) - 3) + base[-1:])
+                for attrs in ([], ['sid', 'a']):
+                    m = {'u': ui, 'q': q, 'attrs': attrs, 'enc': 'last'}
+                    out.append(Case('get_all', [q, attrs, 'last'], 'get_all', m))
+                    out.append(Case('find_all', [q], 'find_all', m))
+                    out.append(Case('get_and_find', ['', q, attrs, 'last'], 'get', m))
                 out.append(Case('get_attr', [['s', s1], rng.choice(['a', 'b', 'zz'])], 'get_attr', m))
         out.append(Case('fs_reset', [], 'setup', {}))
         return out
@@ -103,6 +115,30 @@ class C16(PropBase):
                     elif d.get('sid') != exp:
                         return "record of %r carries sid %r (encoder %s)" % (s, d.get('sid'), enc)
         return None
+    def oracle_bulk(self, cases, impl_out, ctx):
+        """GetFromAll: one record per Sid that FindInAll finds and whose type has a configured Getter"""
+        v = gen.vocab_from_ctx(ctx)
+        gr = dict((k, vv) for k, vv in dict((k, vv) for k, vv in ctx['raw'])['routing'])['getters']
+        no_getter = set(t for t, g, _ in gr if g == ['none'])
+        fails = []
+        pend = {}
+        for c, o in zip(cases, impl_out):
+            if c.stream in ('get_all', 'find_all'):
+                key = (c.meta['u'], c.meta['q'], json.dumps(c.meta['attrs']), c.meta['enc'])
+                pend.setdefault(key, {})[c.stream] = (c, o)
+        for key, d in pend.items():
+            if 'get_all' not in d or 'find_all' not in d:
+                continue
+            (cg, og), (cf, of) = d['get_all'], d['find_all']
+            if og[0] != 'ok' or of[0] != 'ok':
+                continue
+            found = of[1]
+            if any(natural(v, s) is None for s in found) or '>' in key[1]:
+                continue
+            exp = [s for s in found if natural(v, s)[0] not in no_getter]
+            if len(og[1]) != len(exp):
+                fails.append((cg, og, 'GetFromAll.get(%r, sid_encode=%s) yields %d records, FindInAll finds %d Sids of types with a Getter: %r' % (key[1], key[3], len(og[1]), len(exp), exp[:6])))
+        return fails
     def nontrivial(self, case, impl):
         return [case.args] if case.op == 'get_and_find' and impl[0] == 'ok' and impl[1][0] else None
     def histogram_key(self, case, impl):
